@@ -37,7 +37,15 @@ def build_decl(spec):
     """IR of a spec"""
     if 'P' in spec:
         return spec['P']
-    return alphabet.make_decl(spec['names'], spec.get('opts'), spec.get('wrapper', 'a'))
+    P = alphabet.make_decl(spec['names'], spec.get('opts'), spec.get('wrapper', 'a'))
+    if spec.get('shared') is not None:
+        # every class of the module uses the very same options dict object
+        import copy
+        P = copy.deepcopy(P)
+        for q in ir.subpackets(P):
+            q['opts'] = dict(spec['shared'])
+            q['shared'] = True
+    return P
 
 
 def define(spec, seed=0, local=False):
